@@ -11,7 +11,7 @@ from ..model import NotConst, norm
 from ..paths import enumerate_paths, no_raise
 from ..symx import Sym, Lin, entails_ge
 from ..replay import Replay
-from .proto import proto_classes, method, protocol_paths, tags, callback_is, feasible, loop_callbacks
+from .proto import connector, proto_classes, method, protocol_paths, tags, callback_is, feasible, loop_callbacks
 
 PID = "C04"
 LEVEL = "other"
@@ -231,15 +231,15 @@ def r5(ctx, rep):
     prog, res = ctx.prog, ctx.res
     n = 0
     for ci in proto_classes(ctx):
-        conn = method(ctx, ci, "_connect")
-        if not any(isinstance(x, ast.Call) and (call_chain(x) or ("",))[-1] == "create_connection" for x in ast.walk(conn.node)):
+        conn = connector(ctx, ci)
+        creates = [x for x in ast.walk(conn.node) if isinstance(x, ast.Call) and (call_chain(x) or ("",))[-1] == "create_connection"]
+        if not creates:
             continue
-        for ct in res.callers_of(conn):
-            n += 1
-            fn = ct.caller
-            ok, why = False, "the call is not wrapped in asyncio.wait_for"
+
+        def bounded(fn, node):
+            """node (a call) is the first argument of an awaited asyncio.wait_for(..., timeout <= 5) in fn"""
             for w in ast.walk(fn.node):
-                if isinstance(w, ast.Call) and (call_chain(w) or ("",))[-1] == "wait_for" and w.args and w.args[0] is ct.node:
+                if isinstance(w, ast.Call) and (call_chain(w) or ("",))[-1] == "wait_for" and w.args and w.args[0] is node:
                     to = next((k.value for k in w.keywords if k.arg == "timeout"), w.args[1] if len(w.args) > 1 else None)
                     try:
                         v = prog.consteval(to, fn.module) if to is not None else None
@@ -247,13 +247,24 @@ def r5(ctx, rep):
                         v = None
                     awaited = any(isinstance(a, ast.Await) and a.value is w for a in ast.walk(fn.node))
                     if v is None:
-                        why = "wait_for timeout is not a constant"
-                    elif not (0 < v <= 5):
-                        why = "wait_for timeout is %s s, more than the 5 s bound" % v
-                    elif not awaited:
-                        why = "wait_for(...) is not awaited"
-                    else:
-                        ok = True
+                        return False, "wait_for timeout is not a constant"
+                    if not (0 < v <= 5):
+                        return False, "wait_for timeout is %s s, more than the 5 s bound" % v
+                    if not awaited:
+                        return False, "wait_for(...) is not awaited"
+                    return True, ""
+            return False, "the call is not wrapped in asyncio.wait_for"
+
+        # either the create_connection call itself, or every call of the function containing it, is bounded
+        direct = [bounded(conn, c) for c in creates]
+        if all(ok for ok, _ in direct):
+            n += 1
+            rep.ok("C04.R5", "connect-bound:%s" % conn.short, conn.loc(creates[0]), "TCP connect awaited under wait_for(timeout <= 5)")
+            continue
+        for ct in res.callers_of(conn):
+            n += 1
+            fn = ct.caller
+            ok, why = bounded(fn, ct.node)
             rep.check(ok, "C04.R5", "connect-bound:%s" % fn.short, fn.loc(ct.node), "TCP connect awaited under wait_for(timeout <= 5)",
                       bad="%s: %s" % (fn.short, why))
     if n == 0:
